@@ -443,4 +443,237 @@ theorem phase_fd (cfg : Cfg) (st : St) (p : FdP) (ins : CapState) (h : FdReady s
     rw [OS.count_setFd_some _ 2 p.g2 _ (by simp [hBfd, r2]), OS.count_setFd_some _ 1 p.g1 _ (by simp [hBfd, r1]), hBcount, hRcount]
   · simp [fdAfter, hBpy, hRpy, sout, serr]
 
+/-! ### sys / tee-sys -/
+
+@[simp] theorem W.buf_setBuf (w : W) (b c : Nat) (d : Data) : (w.setBuf b d).buf c = if c = b then d else w.buf c :=
+  getD_fset _ _ _ _
+@[simp] theorem W.os_setBuf (w : W) (b : Nat) (d : Data) : (w.setBuf b d).os = w.os := rfl
+@[simp] theorem W.fault_setBuf (w : W) (b : Nat) (d : Data) : (w.setBuf b d).fault = w.fault := rfl
+
+structure SysP where
+  tee : Bool
+  oi : Nat
+  oo : Nat
+  oe : Nat
+  b1 : Nat
+  b2 : Nat
+  t1 : Nat
+  t2 : Nat
+  sin : Stream
+
+def SysP.tmpO (p : SysP) : Stream := if p.tee then .teeIO p.oo p.b1 (.orig 1) else .capIO p.oo p.b1
+def SysP.tmpE (p : SysP) : Stream := if p.tee then .teeIO p.oe p.b2 (.orig 2) else .capIO p.oe p.b2
+def SysP.method (p : SysP) : Method := if p.tee then .teeSys else .sys
+
+def sysMC (p : SysP) (ins : CapState) : MC :=
+  { in_ := if p.tee then none else some (.sys ⟨0, some p.sin, .dontRead p.oi, ins⟩),
+    out := some (.sys ⟨1, some (.orig 1), p.tmpO, .suspended⟩),
+    err := some (.sys ⟨2, some (.orig 2), p.tmpE, .suspended⟩),
+    state := .suspended,
+    inSuspended := !p.tee && ins == .suspended }
+
+def sysMCs (p : SysP) : MC :=
+  { in_ := if p.tee then none else some (.sys ⟨0, some p.sin, .dontRead p.oi, .started⟩),
+    out := some (.sys ⟨1, some (.orig 1), p.tmpO, .started⟩),
+    err := some (.sys ⟨2, some (.orig 2), p.tmpE, .started⟩),
+    state := .started,
+    inSuspended := false }
+
+structure SysReady (st : St) (p : SysP) (ins : CapState) : Prop where
+  cm : st.cm = some ⟨p.method, some (sysMC p ins)⟩
+  ins_ok : ins = .started ∨ ins = .suspended
+  fd1 : st.w.os.fd 1 = some p.t1
+  fd2 : st.w.os.fd 2 = some p.t2
+  sin : p.tee = false → st.w.py.stdin = if ins = .suspended then p.sin else .dontRead p.oi
+  sout : st.w.py.stdout = .orig 1
+  serr : st.w.py.stderr = .orig 2
+  e1 : st.w.buf p.b1 = []
+  e2 : st.w.buf p.b2 = []
+  ne : p.b1 ≠ p.b2
+  nofault : st.w.fault = false
+
+/-- the world after `resume` -/
+def sysResumed (w : W) (p : SysP) (ins : CapState) : W :=
+  { w with py := { w.py with stdout := p.tmpO
+                             stderr := p.tmpE
+                             stdin := if !p.tee && ins == .suspended then .dontRead p.oi else w.py.stdin } }
+
+/-- the world after suspend + read, in terms of the world `wB` the hook body left -/
+def sysAfter (wB : W) (p : SysP) : W :=
+  (({ wB with py := { wB.py with stdout := .orig 1, stderr := .orig 2 } } : W).setBuf p.b1 []).setBuf p.b2 []
+
+theorem resume_sys (w : W) (p : SysP) (ins : CapState) (hins : ins = .started ∨ ins = .suspended) :
+    MC.resumeCapturing w (sysMC p ins) = (sysResumed w p ins, sysMCs p) := by
+  rcases hins with rfl | rfl <;> cases hp : p.tee <;>
+    simp [MC.resumeCapturing, sysMC, sysMCs, optCap, Cap.resume, SysCap.resume, W.setStd, Py.setStd, hp, sysResumed]
+
+theorem suspend_sys (w : W) (p : SysP) :
+    MC.suspendCapturing w (sysMCs p) false =
+      ({ w with py := { w.py with stdout := .orig 1, stderr := .orig 2 } }, sysMC p .started) := by
+  cases hp : p.tee <;>
+    simp [MC.suspendCapturing, sysMC, sysMCs, optCap, Cap.suspend, SysCap.suspend, W.setStd, Py.setStd, hp]
+
+theorem read_sys (w : W) (p : SysP) (ins : CapState) :
+    MC.readouterr w (sysMC p ins) = ((w.setBuf p.b1 []).setBuf p.b2 [], w.buf p.b1, (w.setBuf p.b1 []).buf p.b2) := by
+  cases hp : p.tee <;>
+    simp [MC.readouterr, MC.snapOpt, sysMC, Cap.snap, SysCap.snap, SysP.tmpO, SysP.tmpE, hp]
+
+/-- same descriptor table, same interpreter state except buffer contents, same fault flag -/
+def SameShape (w w' : W) : Prop := w'.os.fdt = w.os.fdt ∧ w'.fault = w.fault ∧ ∃ B, w'.py = { w.py with bufs := B }
+
+theorem SameShape.refl (w : W) : SameShape w w := ⟨rfl, rfl, w.py.bufs, rfl⟩
+theorem SameShape.trans {a b c : W} (h1 : SameShape a b) (h2 : SameShape b c) : SameShape a c := by
+  obtain ⟨x1, y1, B1, z1⟩ := h1
+  obtain ⟨x2, y2, B2, z2⟩ := h2
+  exact ⟨x2.trans x1, y2.trans y1, B2, by rw [z2, z1]⟩
+theorem SameShape.fd {a b : W} (h : SameShape a b) (i : Nat) : b.os.fd i = a.os.fd i := by simp [OS.fd, h.1]
+theorem SameShape.count {a b : W} (h : SameShape a b) : b.os.count = a.os.count := by simp [OS.count, h.1]
+theorem SameShape.stdout {a b : W} (h : SameShape a b) : b.py.stdout = a.py.stdout := by
+  obtain ⟨_, _, B, z⟩ := h; rw [z]
+theorem SameShape.stderr {a b : W} (h : SameShape a b) : b.py.stderr = a.py.stderr := by
+  obtain ⟨_, _, B, z⟩ := h; rw [z]
+
+theorem sameShape_bufAppend (w : W) (b : Nat) (d : Data) : SameShape w (w.bufAppend b d) :=
+  ⟨rfl, rfl, _, rfl⟩
+theorem sameShape_osWrite (w : W) (i : Nat) (d : Data) : SameShape w (w.osWrite i d) := by
+  refine ⟨?_, rfl, w.py.bufs, rfl⟩
+  simp only [W.osWrite, OS.write]; split <;> rfl
+
+@[simp] theorem buf_bufAppend (w : W) (b c : Nat) (d : Data) :
+    (w.bufAppend b d).buf c = w.buf c ++ (if b = c then d else []) := by
+  simp only [W.bufAppend, W.buf_setBuf]; by_cases h : c = b
+  · subst h; simp
+  · simp [h, Ne.symm h]
+@[simp] theorem file_bufAppend (w : W) (b f : Nat) (d : Data) : (w.bufAppend b d).os.file f = w.os.file f := rfl
+@[simp] theorem buf_osWrite (w : W) (i c : Nat) (d : Data) : (w.osWrite i d).buf c = w.buf c := rfl
+theorem file_osWrite (w : W) (i f g : Nat) (d : Data) (h : w.os.fd i = some f) :
+    (w.osWrite i d).os.file g = w.os.file g ++ (if f = g then d else []) := by
+  simp only [W.osWrite, OS.write_of_some _ _ _ _ h, OS.file_setFile]; by_cases e : g = f
+  · subst e; simp
+  · simp [e, Ne.symm e]
+
+/-- effect of the writes of one window in sys / tee-sys mode -/
+theorem doWrites_sys (ws : List Write) (w : W) (p : SysP)
+    (h1 : w.os.fd 1 = some p.t1) (h2 : w.os.fd 2 = some p.t2) (so : w.py.stdout = p.tmpO) (se : w.py.stderr = p.tmpE) :
+    SameShape w (doWrites w ws) ∧
+    (∀ b, (doWrites w ws).buf b = w.buf b ++
+      outText (fun c => (c == .pyOut && p.b1 == b) || (c == .pyErr && p.b2 == b)) ws) ∧
+    ∀ f, (doWrites w ws).os.file f = w.os.file f ++
+      outText (fun c => (p.tee || !c.isPy) && ((!c.isErr && p.t1 == f) || (c.isErr && p.t2 == f))) ws := by
+  induction ws generalizing w with
+  | nil => exact ⟨SameShape.refl w, by simp [doWrites], by simp [doWrites]⟩
+  | cons x ws ih =>
+    have key : SameShape w (doWrite w x) ∧
+        (∀ b, (doWrite w x).buf b = w.buf b ++ (if (x.chan == .pyOut && p.b1 == b) || (x.chan == .pyErr && p.b2 == b) then x.data else [])) ∧
+        (∀ f, (doWrite w x).os.file f = w.os.file f ++
+          (if (p.tee || !x.chan.isPy) && ((!x.chan.isErr && p.t1 == f) || (x.chan.isErr && p.t2 == f)) then x.data else [])) := by
+      cases hx : x.chan <;> cases hp : p.tee <;>
+        simp only [doWrite, hx, writePy, so, se, SysP.tmpO, SysP.tmpE, hp, if_true, if_false, Bool.false_eq_true]
+      · -- pyOut, sys
+        exact ⟨sameShape_bufAppend _ _ _, by intro b; simp, by intro f; simp [Chan.isPy]⟩
+      · -- pyOut, tee
+        refine ⟨(sameShape_bufAppend _ _ _).trans (sameShape_osWrite _ _ _), by intro b; simp, ?_⟩
+        intro f; rw [file_osWrite _ 1 p.t1 f _ (show (w.bufAppend p.b1 x.data).os.fd 1 = some p.t1 from h1)]; simp [Chan.isErr]
+      · exact ⟨sameShape_bufAppend _ _ _, by intro b; simp, by intro f; simp [Chan.isPy]⟩
+      · refine ⟨(sameShape_bufAppend _ _ _).trans (sameShape_osWrite _ _ _), by intro b; simp, ?_⟩
+        intro f; rw [file_osWrite _ 2 p.t2 f _ (show (w.bufAppend p.b2 x.data).os.fd 2 = some p.t2 from h2)]; simp [Chan.isErr]
+      all_goals first
+        | exact ⟨sameShape_osWrite _ _ _, by intro b; simp, by intro f; rw [file_osWrite _ 1 p.t1 f _ h1]; simp [Chan.isErr, Chan.isPy]⟩
+        | exact ⟨sameShape_osWrite _ _ _, by intro b; simp, by intro f; rw [file_osWrite _ 2 p.t2 f _ h2]; simp [Chan.isErr, Chan.isPy]⟩
+    obtain ⟨k1, k2, k3⟩ := key
+    have := ih (doWrite w x) (by rw [k1.fd, h1]) (by rw [k1.fd, h2]) (by rw [k1.stdout, so]) (by rw [k1.stderr, se])
+    obtain ⟨i1, i2, i3⟩ := this
+    simp only [doWrites, List.foldl_cons] at i1 i2 i3 ⊢
+    refine ⟨k1.trans i1, ?_, ?_⟩
+    · intro b; rw [i2, k2, outText_cons, List.append_assoc]
+    · intro f; rw [i3, k3, outText_cons, List.append_assoc]
+
+theorem body_sys (cfg : Cfg) (hook : String) (ws : List Write) (filt : List Nat) (w : W) (p : SysP)
+    (h1 : w.os.fd 1 = some p.t1) (h2 : w.os.fd 2 = some p.t2) (so : w.py.stdout = p.tmpO) (se : w.py.stderr = p.tmpE) :
+    SameShape w (bodyOf cfg hook ws filt w) ∧
+    (∀ b, (bodyOf cfg hook ws filt w).buf b = w.buf b ++
+      outText (fun c => (c == .pyOut && p.b1 == b) || (c == .pyErr && p.b2 == b)) ws) ∧
+    ∀ f, (bodyOf cfg hook ws filt w).os.file f = w.os.file f ++
+      outText (fun c => (p.tee || !c.isPy) && ((!c.isErr && p.t1 == f) || (c.isErr && p.t2 == f))) ws := by
+  unfold bodyOf
+  split
+  · have := doWrites_sys ws { w with py := { w.py with filters := cfg.cfgFilters ++ w.py.filters } } p h1 h2 so se
+    obtain ⟨⟨a1, a2, B, a3⟩, b, c⟩ := this
+    simp only [callBody]
+    refine ⟨⟨a1, a2, B, ?_⟩, b, c⟩
+    simp [a3]
+  · exact doWrites_sys ws w p h1 h2 so se
+
+theorem phase_sys (cfg : Cfg) (st : St) (p : SysP) (ins : CapState) (h : SysReady st p ins)
+    (t : Nat) (hook : String) (ws : List Write) (filt : List Nat) :
+    SysReady (step cfg st (.phase t hook ws filt)) p .started ∧
+    (step cfg st (.phase t hook ws filt)).secs = st.secs ++
+      secsOf t (whenOf hook) (outText (fun c => c == .pyOut) ws) (outText (fun c => c == .pyErr) ws) ∧
+    (∀ f, (step cfg st (.phase t hook ws filt)).w.os.file f = st.w.os.file f ++
+      outText (fun c => (p.tee || !c.isPy) && ((!c.isErr && p.t1 == f) || (c.isErr && p.t2 == f))) ws) ∧
+    (step cfg st (.phase t hook ws filt)).w.os.fdt = st.w.os.fdt ∧
+    (step cfg st (.phase t hook ws filt)).tasks = st.tasks ∧
+    (step cfg st (.phase t hook ws filt)).collectFailed = st.collectFailed ∧
+    ∃ B, (step cfg st (.phase t hook ws filt)).w.py =
+      { st.w.py with stdin := if p.tee then st.w.py.stdin else .dontRead p.oi, bufs := B } := by
+  rw [step_phase]
+  obtain ⟨hcm, hins, fd1, fd2, sin, sout, serr, e1, e2, ne, nf⟩ := h
+  have hR := resume_sys st.w p ins hins
+  generalize hwR : sysResumed st.w p ins = wR at hR
+  have hB := body_sys cfg hook ws filt wR p (by rw [← hwR]; exact fd1) (by rw [← hwR]; exact fd2) (by rw [← hwR]; rfl) (by rw [← hwR]; rfl)
+  obtain ⟨hBs, hBbuf, hBfile⟩ := hB
+  generalize hwB : bodyOf cfg hook ws filt wR = wB at *
+  have hS := suspend_sys wB p
+  have hD := read_sys { wB with py := { wB.py with stdout := .orig 1, stderr := .orig 2 } } p .started
+  have hb1 : wB.buf p.b1 = outText (fun c => c == .pyOut) ws := by
+    rw [hBbuf, show wR.buf p.b1 = [] by rw [← hwR]; exact e1]
+    simp only [List.nil_append]
+    apply outText_congr; intro c; cases c <;> simp [ne.symm]
+  have hb2 : wB.buf p.b2 = outText (fun c => c == .pyErr) ws := by
+    rw [hBbuf, show wR.buf p.b2 = [] by rw [← hwR]; exact e2]
+    simp only [List.nil_append]
+    apply outText_congr; intro c; cases c <;> simp [ne]
+  simp only [runCalls, List.foldl_cons, List.foldl_nil]
+  have e1' : (runCall t (whenOf hook) (bodyOf cfg hook ws filt)
+      (runCall t (whenOf hook) (bodyOf cfg hook ws filt)
+        (runCall t (whenOf hook) (bodyOf cfg hook ws filt)
+          (runCall t (whenOf hook) (bodyOf cfg hook ws filt) { st := st } .resume) .yield) (.suspend false)) .read)
+      = Frame.mk { st with w := sysAfter wB p, cm := some ⟨p.method, some (sysMC p .started)⟩ }
+          (outText (fun c => c == .pyOut) ws) (outText (fun c => c == .pyErr) ws) := by
+    have hb2' : (W.setBuf { wB with py := { wB.py with stdout := .orig 1, stderr := .orig 2 } } p.b1 []).buf p.b2
+        = outText (fun c => c == .pyErr) ws := by
+      rw [W.buf_setBuf, if_neg ne.symm]; exact hb2
+    simp [runCall, withCM, hcm, CM.resume, hR, hwB, CM.suspend, hS, CM.read, hD, sysAfter, hb2']
+    exact hb1
+  rw [e1', secs_step]
+  obtain ⟨sfdt, sfault, B, spy⟩ := hBs
+  have hRfd : ∀ j, wR.os.fd j = st.w.os.fd j := by intro j; rw [← hwR]; rfl
+  have hAfd : ∀ j, (sysAfter wB p).os.fd j = st.w.os.fd j := by
+    intro j; rw [← hRfd]; simp [sysAfter, OS.fd, sfdt]
+  have hApy : (sysAfter wB p).py = { wR.py with stdout := .orig 1, stderr := .orig 2, bufs := fset (fset B p.b1 []) p.b2 [] } := by
+    simp [sysAfter, W.setBuf, spy]
+  have hRpy : wR.py = (sysResumed st.w p ins).py := by rw [← hwR]
+  refine ⟨⟨rfl, Or.inl rfl, ?_, ?_, ?_, ?_, ?_, ?_, ?_, ne, ?_⟩, rfl, ?_, ?_, rfl, rfl, ?_⟩
+  · simp only []; rw [hAfd, fd1]
+  · simp only []; rw [hAfd, fd2]
+  · intro ht
+    simp only [hApy, hRpy, sysResumed, ht]
+    rcases hins with rfl | rfl <;> simp [sin ht]
+  · simp [hApy]
+  · simp [hApy]
+  · simp [sysAfter, ne]
+  · simp [sysAfter]
+  · show (sysAfter wB p).fault = false
+    simp [sysAfter, sfault, ← hwR, sysResumed, nf]
+  · intro f
+    show (sysAfter wB p).os.file f = _
+    rw [show (sysAfter wB p).os.file f = wB.os.file f from rfl, hBfile, ← hwR]; rfl
+  · show (sysAfter wB p).os.fdt = _
+    rw [show (sysAfter wB p).os.fdt = wB.os.fdt from rfl, sfdt, ← hwR]; rfl
+  · refine ⟨fset (fset B p.b1 []) p.b2 [], ?_⟩
+    simp only [hApy, hRpy, sysResumed, sout, serr]
+    cases ht : p.tee
+    · rcases hins with rfl | rfl <;> simp [sin ht, ← sout, ← serr]
+    · simp [← sout, ← serr]
+
 end Pytask.Capture
